@@ -17,6 +17,7 @@ import time
 from . import build
 
 VERIF = build.VERIF
+REPLAYS = os.environ.get("VERIF_REPLAY_DIR") or os.path.join(VERIF, "replays")
 NCPU = os.cpu_count() or 4
 
 
@@ -230,13 +231,13 @@ def file_violations(pid, binp, results, info, extra_args=None, env=None, minimis
             by_sig[sig] = (r, size)
     new, known, internal = [], [], []
     minimised = 0
-    os.makedirs(os.path.join(VERIF, "replays"), exist_ok=True)
+    os.makedirs(REPLAYS, exist_ok=True)
     for sig in sorted(by_sig):
         r = by_sig[sig][0]
         v = r["violation"]
         k = match_known(pid, sig)
         safe = "".join(ch if ch.isalnum() else "_" for ch in sig)[:60]
-        path = os.path.join(VERIF, "replays", "%s-%s-%d.json" % (pid, safe, r["seed"]))
+        path = os.path.join(REPLAYS, "%s-%s-%d.json" % (pid, safe, r["seed"]))
         if minimiser and r.get("case") and not k and minimised < 3:
             try:
                 r["case"] = minimiser(binp, pid, r["case"], sig, extra_args, env)
@@ -266,6 +267,28 @@ def file_violations(pid, binp, results, info, extra_args=None, env=None, minimis
         else:
             new.append((v, path))
     return new, known, internal
+
+
+def pinned_known(pid, binp, extra_args=None, env=None):
+    """Every status=known finding carries a pinned reproduction under known_cases/. It is replayed at the
+    start of every check so that the KNOWN-FINDING line does not depend on the seeded search happening
+    to reach the finding (the union-key twin entries of C13 show up about once in 60000 quick runs).
+    A pinned case that no longer reproduces is only logged: the finding may have been repaired."""
+    hits = []
+    for f in load_known():
+        if f.get("property") != pid or f.get("status") != "known" or not f.get("case"):
+            continue
+        path = os.path.join(VERIF, f["case"])
+        d, p = replay_once(binp, pid, path, extra_args, env)
+        got = set(((d or {}).get("extra") or {}).get("all_signatures") or [])
+        if d is not None and d.get("violation"):
+            got.add(d["violation"].get("signature"))
+        if f["signature"] in got:
+            hits.append((f, (d or {}).get("violation"), path))
+        else:
+            log("known finding %s: its pinned case %s did not reproduce (got %s) - repaired, or the harness generators changed"
+                % (f["signature"], f["case"], sorted(g for g in got if g) or "no violation"))
+    return hits
 
 
 def _replay_has(binp, pid, case, sig, extra_args, env, tmpdir):
@@ -407,6 +430,8 @@ def generic_check(pid, tier, seed):
         internal = [r["internal"] for r in results if r.get("internal")]
         new, known, rep_int = file_violations(pid, binp, results, info, extra_args=cfg.get("args"), env=env,
                                               minimiser=minimise_schedule_case if cfg.get("race") else None)
+        pinned = pinned_known(pid, binp, extra_args=cfg.get("args"), env=env)
+        known = pinned + [h for h in known if h[0]["signature"] not in set(p[0]["signature"] for p in pinned)]
     finally:
         if racedir:
             shutil.rmtree(racedir, ignore_errors=True)
@@ -492,8 +517,8 @@ def generated_code_violation(pid, tier, seed, e):
     """C15 / C34 are about the helpers the generator emits. The workload packages are generated from
     YANG by the working tree's own generator at check time and compile on the unchanged tree; if they
     stop compiling, the helpers this property speaks about are broken in the plainest way."""
-    os.makedirs(os.path.join(VERIF, "replays"), exist_ok=True)
-    path = os.path.join(VERIF, "replays", "%s-generated-code-does-not-compile.json" % pid)
+    os.makedirs(REPLAYS, exist_ok=True)
+    path = os.path.join(REPLAYS, "%s-generated-code-does-not-compile.json" % pid)
     first = [l for l in e.output.splitlines() if ".go:" in l][:8]
     sig = "%s:generated-code-does-not-compile" % pid
     doc = {"property": pid, "seed": seed, "violation": {"property": pid, "oracle": "generated-code-compile", "signature": sig,
